@@ -16,4 +16,4 @@ else
 fi
 (cd $S && go build ./... ) || { echo "MUTANT DOES NOT COMPILE"; exit 4; }
 cp -f /verif/known_findings.json $M/home/ 2>/dev/null
-CTVERIF_REPO=$S CTVERIF_HOME=$M/home $BIN check $prop 2>&1 | head -${MUT_LINES:-12}
+CTVERIF_REPO=$S CTVERIF_HOME=$M/home /verif/tools/throttle $BIN check $prop 2>&1 | head -${MUT_LINES:-12}
